@@ -8,6 +8,8 @@ import GraphiqModel.Proofs.Commuting
 import Mathlib.Analysis.Matrix.Order
 import Mathlib.Analysis.SpecialFunctions.ContinuousFunctionalCalculus.Rpow.Basic
 import Mathlib.Analysis.Complex.Order
+import Mathlib.Analysis.Matrix.HermitianFunctionalCalculus
+import Mathlib.LinearAlgebra.Matrix.Charpoly.Basic
 namespace Graphiq
 namespace C17B
 open Matrix
@@ -121,6 +123,183 @@ theorem traceDist_commuting (U : Matrix ι ι ℂ) (hU : Uᴴ * U = 1) (p q : ι
   funext i
   congr 1
   rw [← sq, Real.sqrt_sq_eq_abs]
+
+/-! ### a pure argument: the shortcut `tr(ρσ)` of the code is the Uhlmann fidelity -/
+
+
+/-- the pure state `|ψ⟩⟨ψ|` -/
+noncomputable def ketBra (ψ : ι → ℂ) : Matrix ι ι ℂ := vecMulVec ψ (star ψ)
+
+theorem ketBra_mul_self (ψ : ι → ℂ) (hψ : star ψ ⬝ᵥ ψ = 1) : ketBra ψ * ketBra ψ = ketBra ψ := by
+  unfold ketBra
+  rw [vecMulVec_mul_vecMulVec, hψ, one_smul]
+
+theorem ketBra_psd (ψ : ι → ℂ) : (ketBra ψ).PosSemidef := posSemidef_vecMulVec_self_star ψ
+
+theorem trace_ketBra (ψ : ι → ℂ) (hψ : star ψ ⬝ᵥ ψ = 1) : Matrix.trace (ketBra ψ) = 1 := by
+  unfold ketBra
+  rw [trace_vecMulVec, dotProduct_comm, hψ]
+
+/-- `ρ σ ρ = ⟨ψ|σ|ψ⟩ ρ` for `ρ = |ψ⟩⟨ψ|` -/
+theorem ketBra_sandwich (ψ : ι → ℂ) (σ : Matrix ι ι ℂ) :
+    ketBra ψ * σ * ketBra ψ = (star ψ ⬝ᵥ σ *ᵥ ψ) • ketBra ψ := by
+  unfold ketBra
+  rw [vecMulVec_mul, vecMulVec_mul_vecMulVec, vecMulVec_smul, dotProduct_mulVec]
+
+theorem trace_ketBra_mul (ψ : ι → ℂ) (σ : Matrix ι ι ℂ) : Matrix.trace (ketBra ψ * σ) = star ψ ⬝ᵥ σ *ᵥ ψ := by
+  unfold ketBra
+  rw [vecMulVec_mul, trace_vecMulVec, dotProduct_comm, dotProduct_mulVec]
+
+/-- **the pure-state shortcut is the Uhlmann fidelity**: for `ρ = |ψ⟩⟨ψ|`, `⟨ψ|ψ⟩ = 1`, and `σ` positive semidefinite,
+    `(tr √(√ρ σ √ρ))² = tr(ρ σ) = ⟨ψ|σ|ψ⟩` -/
+theorem uhlmann_pure_left (ψ : ι → ℂ) (hψ : star ψ ⬝ᵥ ψ = 1) (σ : Matrix ι ι ℂ) (hσ : σ.PosSemidef) :
+    uhlmann (ketBra ψ) σ = Matrix.trace (ketBra ψ * σ) := by
+  have h0 := hσ.dotProduct_mulVec_nonneg ψ
+  obtain ⟨s, hs⟩ : ∃ s : ℂ, s = star ψ ⬝ᵥ σ *ᵥ ψ := ⟨_, rfl⟩
+  rw [← hs] at h0
+  have hsre : s = ((s.re : ℝ) : ℂ) := by
+    apply Complex.ext
+    · simp
+    · have := (Complex.le_def.mp h0).2; simp at this ⊢; exact this.symm
+  have hre0 : 0 ≤ s.re := (Complex.le_def.mp h0).1
+  have hsq : CFC.sqrt (ketBra ψ) = ketBra ψ :=
+    CFC.sqrt_unique (ketBra_mul_self ψ hψ) (Matrix.nonneg_iff_posSemidef.mpr (ketBra_psd ψ))
+  unfold uhlmann
+  rw [hsq, ketBra_sandwich, trace_ketBra_mul, ← hs]
+  have hroot : CFC.sqrt (s • ketBra ψ) = ((Real.sqrt s.re : ℝ) : ℂ) • ketBra ψ := by
+    apply CFC.sqrt_unique
+    · rw [smul_mul_smul_comm, ketBra_mul_self ψ hψ, ← Complex.ofReal_mul, Real.mul_self_sqrt hre0, ← hsre]
+    · rw [Matrix.nonneg_iff_posSemidef]
+      exact (ketBra_psd ψ).smul (Complex.zero_le_real.mpr (Real.sqrt_nonneg _))
+  rw [hroot, Matrix.trace_smul, trace_ketBra ψ hψ, smul_eq_mul, mul_one, sq, ← Complex.ofReal_mul,
+    Real.mul_self_sqrt hre0, ← hsre]
+
+
+/-- the square root of a rank-one positive matrix `|φ⟩⟨φ|` has trace `‖φ‖` -/
+theorem trace_sqrt_ketBra (φ : ι → ℂ) :
+    (Matrix.trace (CFC.sqrt (ketBra φ))) ^ 2 = star φ ⬝ᵥ φ := by
+  have h0 : (0 : ℂ) ≤ star φ ⬝ᵥ φ := dotProduct_star_self_nonneg φ
+  obtain ⟨t, ht⟩ : ∃ t : ℂ, t = star φ ⬝ᵥ φ := ⟨_, rfl⟩
+  rw [← ht] at h0 ⊢
+  have htre : t = ((t.re : ℝ) : ℂ) := by
+    apply Complex.ext
+    · simp
+    · have := (Complex.le_def.mp h0).2; simp at this ⊢; exact this.symm
+  have hre0 : 0 ≤ t.re := (Complex.le_def.mp h0).1
+  have hAA : ketBra φ * ketBra φ = t • ketBra φ := by
+    unfold ketBra
+    rw [vecMulVec_mul_vecMulVec, vecMulVec_smul, ht]
+  by_cases hz : t.re = 0
+  · -- `φ = 0`
+    have ht0 : t = 0 := by rw [htre, hz]; simp
+    have hφ : φ = 0 := by
+      rw [ht] at ht0
+      exact dotProduct_star_self_eq_zero.mp ht0
+    have : ketBra φ = 0 := by unfold ketBra; rw [hφ]; simp
+    rw [this, CFC.sqrt_zero, Matrix.trace_zero, ht0]; simp
+  · have hpos : 0 < t.re := lt_of_le_of_ne hre0 (fun e => hz e.symm)
+    have hroot : CFC.sqrt (ketBra φ) = (((1 / Real.sqrt t.re : ℝ)) : ℂ) • ketBra φ := by
+      apply CFC.sqrt_unique
+      · rw [smul_mul_smul_comm, hAA, smul_smul, ← Complex.ofReal_mul]
+        have : (1 / Real.sqrt t.re * (1 / Real.sqrt t.re)) = 1 / t.re := by
+          rw [div_mul_div_comm, one_mul, Real.mul_self_sqrt hre0]
+        rw [this]
+        nth_rewrite 2 [htre]
+        rw [← Complex.ofReal_mul, one_div, inv_mul_cancel₀ hz]; simp
+      · rw [Matrix.nonneg_iff_posSemidef]
+        exact (ketBra_psd φ).smul (Complex.zero_le_real.mpr (by positivity))
+    have htr : Matrix.trace (ketBra φ) = t := by
+      unfold ketBra; rw [trace_vecMulVec, dotProduct_comm, ht]
+    have key : ((1 / Real.sqrt t.re) * t.re) ^ 2 = t.re := by
+      have hq : 0 < Real.sqrt t.re := Real.sqrt_pos.mpr hpos
+      have hs := Real.mul_self_sqrt hre0
+      have e : 1 / Real.sqrt t.re * t.re = Real.sqrt t.re := by
+        nth_rewrite 2 [← hs]
+        field_simp
+      rw [e, sq, hs]
+    rw [hroot, Matrix.trace_smul, htr, smul_eq_mul]
+    have e2 : (((1 / Real.sqrt t.re : ℝ)) : ℂ) * t = (((1 / Real.sqrt t.re * t.re : ℝ)) : ℂ) := by
+      rw [Complex.ofReal_mul, ← htre]
+    rw [e2, ← Complex.ofReal_pow, key, ← htre]
+
+
+/-- **… in the other argument position too**: for `σ` positive semidefinite and `ρ = |ψ⟩⟨ψ|`,
+    `(tr √(√σ ρ √σ))² = tr(σ ρ) = ⟨ψ|σ|ψ⟩` -/
+theorem uhlmann_pure_right (ψ : ι → ℂ) (σ : Matrix ι ι ℂ) (hσ : σ.PosSemidef) :
+    uhlmann σ (ketBra ψ) = Matrix.trace (σ * ketBra ψ) := by
+  have hσ0 : (0 : Matrix ι ι ℂ) ≤ σ := Matrix.nonneg_iff_posSemidef.mpr hσ
+  have hrH : (CFC.sqrt σ)ᴴ = CFC.sqrt σ := (Matrix.nonneg_iff_posSemidef.mp (CFC.sqrt_nonneg σ)).1
+  have hrr : CFC.sqrt σ * CFC.sqrt σ = σ := CFC.sqrt_mul_sqrt_self σ hσ0
+  have hsand : CFC.sqrt σ * ketBra ψ * CFC.sqrt σ = ketBra (CFC.sqrt σ *ᵥ ψ) := by
+    unfold ketBra
+    rw [mul_vecMulVec, vecMulVec_mul, star_mulVec, hrH]
+  unfold uhlmann
+  rw [hsand, trace_sqrt_ketBra, star_mulVec, hrH, ← dotProduct_mulVec, mulVec_mulVec, hrr]
+  unfold ketBra
+  rw [mul_vecMulVec, trace_vecMulVec, dotProduct_comm]
+
+
+/-! ### general facts -/
+
+
+/-- **`F(ρ, ρ) = (tr ρ)²`**, in particular 1 for a density matrix -/
+theorem uhlmann_self (ρ : Matrix ι ι ℂ) (hρ : ρ.PosSemidef) : uhlmann ρ ρ = (Matrix.trace ρ) ^ 2 := by
+  have h0 : (0 : Matrix ι ι ℂ) ≤ ρ := Matrix.nonneg_iff_posSemidef.mpr hρ
+  unfold uhlmann
+  have e : CFC.sqrt ρ * ρ * CFC.sqrt ρ = ρ * ρ := by
+    have hrr := CFC.sqrt_mul_sqrt_self ρ h0
+    calc CFC.sqrt ρ * ρ * CFC.sqrt ρ = CFC.sqrt ρ * (CFC.sqrt ρ * CFC.sqrt ρ) * CFC.sqrt ρ := by rw [hrr]
+      _ = (CFC.sqrt ρ * CFC.sqrt ρ) * (CFC.sqrt ρ * CFC.sqrt ρ) := by simp only [Matrix.mul_assoc]
+      _ = ρ * ρ := by rw [hrr]
+  rw [e, CFC.sqrt_mul_self ρ h0]
+
+/-- the Uhlmann fidelity of positive semidefinite matrices is a nonnegative real number -/
+theorem uhlmann_nonneg (ρ σ : Matrix ι ι ℂ) : 0 ≤ uhlmann ρ σ := by
+  unfold uhlmann
+  have h := (Matrix.nonneg_iff_posSemidef.mp (CFC.sqrt_nonneg (CFC.sqrt ρ * σ * CFC.sqrt ρ))).trace_nonneg
+  exact pow_nonneg h 2
+
+
+/-! ### symmetry -/
+
+
+/-- the trace of the positive square root is the sum of the square roots of the eigenvalues -/
+theorem trace_sqrt_eq_sum {A : Matrix ι ι ℂ} (hA : A.PosSemidef) :
+    Matrix.trace (CFC.sqrt A) = ∑ i, ((Real.sqrt (hA.1.eigenvalues i) : ℝ) : ℂ) := by
+  rw [CFC.sqrt_eq_cfc, cfc_nnreal_eq_real _ A, hA.1.cfc_eq]
+  simp only [IsHermitian.cfc, Unitary.conjStarAlgAut_apply]
+  rw [Matrix.trace_mul_comm, ← Matrix.mul_assoc]
+  simp [Matrix.trace_diagonal]
+  apply Finset.sum_congr rfl
+  intro i _
+  rw [max_eq_left (hA.eigenvalues_nonneg i)]
+
+
+/-- **the Uhlmann fidelity is symmetric** (any dimension): `(tr √(√ρ σ √ρ))² = (tr √(√σ ρ √σ))²` — the two matrices are
+    `(AB)(AB)†` and `(AB)†(AB)` for `A = √ρ`, `B = √σ`, which have the same characteristic polynomial -/
+theorem uhlmann_symm (ρ σ : Matrix ι ι ℂ) (hρ : ρ.PosSemidef) (hσ : σ.PosSemidef) : uhlmann ρ σ = uhlmann σ ρ := by
+  have hρ0 : (0 : Matrix ι ι ℂ) ≤ ρ := Matrix.nonneg_iff_posSemidef.mpr hρ
+  have hσ0 : (0 : Matrix ι ι ℂ) ≤ σ := Matrix.nonneg_iff_posSemidef.mpr hσ
+  have hAH : (CFC.sqrt ρ)ᴴ = CFC.sqrt ρ := (Matrix.nonneg_iff_posSemidef.mp (CFC.sqrt_nonneg ρ)).1
+  have hBH : (CFC.sqrt σ)ᴴ = CFC.sqrt σ := (Matrix.nonneg_iff_posSemidef.mp (CFC.sqrt_nonneg σ)).1
+  have hAA := CFC.sqrt_mul_sqrt_self ρ hρ0
+  have hBB := CFC.sqrt_mul_sqrt_self σ hσ0
+  have e1 : CFC.sqrt ρ * σ * CFC.sqrt ρ = (CFC.sqrt ρ * CFC.sqrt σ) * (CFC.sqrt ρ * CFC.sqrt σ)ᴴ := by
+    rw [Matrix.conjTranspose_mul, hAH, hBH]
+    nth_rewrite 1 [← hBB]
+    simp only [Matrix.mul_assoc]
+  have e2 : CFC.sqrt σ * ρ * CFC.sqrt σ = (CFC.sqrt ρ * CFC.sqrt σ)ᴴ * (CFC.sqrt ρ * CFC.sqrt σ) := by
+    rw [Matrix.conjTranspose_mul, hAH, hBH]
+    nth_rewrite 1 [← hAA]
+    simp only [Matrix.mul_assoc]
+  have p1 : (CFC.sqrt ρ * σ * CFC.sqrt ρ).PosSemidef := by rw [e1]; exact posSemidef_self_mul_conjTranspose _
+  have p2 : (CFC.sqrt σ * ρ * CFC.sqrt σ).PosSemidef := by rw [e2]; exact posSemidef_conjTranspose_mul_self _
+  have hchar : (CFC.sqrt ρ * σ * CFC.sqrt ρ).charpoly = (CFC.sqrt σ * ρ * CFC.sqrt σ).charpoly := by
+    rw [e1, e2]; exact Matrix.charpoly_mul_comm _ _
+  have heig : p1.1.eigenvalues = p2.1.eigenvalues := (Matrix.IsHermitian.eigenvalues_eq_eigenvalues_iff p1.1 p2.1).2 hchar
+  unfold uhlmann
+  rw [trace_sqrt_eq_sum p1, trace_sqrt_eq_sum p2, heig]
+
 
 end C17B
 end Graphiq
